@@ -15,7 +15,7 @@ CASES = {"quick": 3000, "thorough": 40000}
 MIN_CASES_PER_SHARD = 20
 CASE_TIMEOUT = 60
 RULE = ("one case = one integer-labelled random directed graph (3..12 nodes, one-way and two-way streets, anisotropic extent so that "
-        "axis mix-ups show, unit scale or ~1e7 offsets, bulk or single inserts, repeated adds of an existing label with the same or other coordinates) loaded in both backends, 6 boxes (random, the bounding "
+        "axis mix-ups show, unit scale or ~1e7 offsets, bulk or single inserts, repeated adds of an existing label with the same or other coordinates, 25 % with the package logger at DEBUG) loaded in both backends, unbounded nodes_closeto/edges_closeto at the trace starts, 6 boxes (random, the bounding "
         "box, boxes with a node exactly on the border) and 2 traces x edge-state matcher configurations without distance cut-off. "
         "Non-trivial = >= 3 nodes and x-extent / y-extent differ by more than 2x; distinct = hash of the graph")
 ANCHORS = [("leuvenmapmatching/map/sqlite.py", "SqliteMap.bb"),
@@ -30,7 +30,7 @@ ANCHORS = [("leuvenmapmatching/map/sqlite.py", "SqliteMap.bb"),
            ("leuvenmapmatching/map/inmem.py", "InMemMap.edges_nbrto"),
            ("leuvenmapmatching/map/inmem.py", "InMemMap.bb")]
 FLOORS = {"box_queries": 1000, "border_boxes": 150, "match_pairs": 300, "match_pairs_complete": 100,
-          "nbr_queries": 1500, "single_insert_graphs": 50, "big_magnitude_graphs": 50, "bb_compared": 200, "repeated_node_adds": 200, "grown_graphs": 200}
+          "nbr_queries": 1500, "single_insert_graphs": 50, "big_magnitude_graphs": 50, "bb_compared": 200, "repeated_node_adds": 200, "grown_graphs": 200, "debug_level_graphs": 300, "closeto_compared": 2000}
 ASSUMPTIONS = ["matching is compared on index and best probability (1e-9 relative), not on the path: neighbour order differs between "
                "backends and ties may be broken differently",
                "matcher configurations have no max_dist / max_dist_init (unbounded initial radius), as the property states"]
@@ -99,7 +99,8 @@ def gen_case(rng, i, tier):
         if [a_, b_] not in m["edges"]:
             ge.append([a_, b_])
         grow = {"node": [newl, [p0[0] + rng.uniform(0.5, 2.0), p0[1] + rng.uniform(0.5, 2.0)]], "edges": ge}
-    return {"map": m, "boxes": boxes, "traces": traces, "cfgs": cfgs, "bulk": rng.random() < 0.6, "big": big, "dups": dups, "grow": grow}
+    return {"map": m, "boxes": boxes, "traces": traces, "cfgs": cfgs, "bulk": rng.random() < 0.6, "big": big, "dups": dups, "grow": grow,
+            "debug": rng.random() < 0.25}
 
 
 def close(a, b):
@@ -118,6 +119,21 @@ def who(expected, got_im, got_sq):
 
 
 def check_case(ctx, case):
+    # interchangeability does not depend on the log level: a quarter of the graphs is built and queried with the package
+    # logger at DEBUG (every logger.debug argument and every isEnabledFor(DEBUG) branch of the backends is then executed)
+    if case.get("debug"):
+        ctx.count("debug_level_graphs")
+    with env.debug_level(bool(case.get("debug"))):
+        _check_case(ctx, case)
+
+
+def _closeto_sig(res, kind):
+    if kind == "nodes":
+        return sorted((l, tuple(p)) for _, l, p in res)
+    return sorted((l1, tuple(p1), l2, tuple(p2)) for _, l1, p1, l2, p2, _, _ in res)
+
+
+def _check_case(ctx, case):
     m = case["map"]
     model = MapModel(m)
     im = build.make_inmem(m)
@@ -232,6 +248,29 @@ def check_case(ctx, case):
             b = sorted((x1, tuple(p1), x2, tuple(p2)) for x1, p1, x2, p2 in sm.all_edges())
             if a != b or a != exp:
                 ctx.violation(f"C12:all_edges:{who(exp, a, b)}:after-growing", case, f"inmem {a[:4]}.. sqlite {b[:4]}.. model {exp[:4]}..")
+        # candidate queries with an unbounded radius (what a matcher without cut-off asks): same items, same distances
+        for tr in case["traces"]:
+            loc = tuple(tr[0])
+            for kind in ("nodes", "edges"):
+                ctx.count("closeto_compared")
+                try:
+                    ra = (im.nodes_closeto if kind == "nodes" else im.edges_closeto)(loc, max_dist=math.inf)
+                    rb = (sm.nodes_closeto if kind == "nodes" else sm.edges_closeto)(loc, max_dist=math.inf)
+                except Exception as e:
+                    ctx.violation(f"C12:{kind}_closeto:raises-{type(e).__name__}", case, f"{e!r} at {loc}")
+                    continue
+                if kind == "nodes":
+                    exp = sorted((l, model.coords[l]) for l in model.coords)
+                else:
+                    exp = sorted((a, model.coords[a], b, model.coords[b]) for a, b in model.edges if a != b)
+                a, b = _closeto_sig(ra, kind), _closeto_sig(rb, kind)
+                if kind == "edges":
+                    a = [x for x in a if x[0] != x[2]]
+                    b = [x for x in b if x[0] != x[2]]
+                if a != b or a != exp:
+                    ctx.violation(f"C12:{kind}_closeto(unbounded):{who(exp, a, b)}", case, f"at {loc}: inmem {a[:4]}.. ({len(a)}) sqlite {b[:4]}.. ({len(b)}) model ({len(exp)})")
+                elif any(not close(x[0], y[0]) for x, y in zip(sorted(ra, key=lambda t: t[0]), sorted(rb, key=lambda t: t[0]))):
+                    ctx.violation(f"C12:{kind}_closeto(unbounded):distances-differ", case, f"at {loc}")
         # matching
         for tr, cfg in zip(case["traces"], case["cfgs"]):
             ctx.count("match_pairs")
